@@ -113,6 +113,14 @@ class WidgetProtocol(Protocol):
     has = {"automove_cursor_on_scroll": False, "set_scrollpos": "uf", "get_scrollpos": "uf", "get_cursor_coords": "uf", "get_pref_col": "uf", "move_cursor_to_coords": "uf", "mouse_event": "uf", "keypress": True, "rows": True, "pack": True, "render": True, "selectable": True}
 
 
+    def isinstance(self, ip, st, obj, cls):
+        """An opaque child of kind Widget *is* a urwid.Widget (the container proofs are "for every child honouring the
+        widget protocol"; for a non-Widget object the constructors only emit a DeprecationWarning)."""
+        if cls is urwid.Widget:
+            return True
+        raise Unsupported(f"isinstance of an opaque Widget against {cls!r}")
+
+
 PROTOCOLS["Widget"] = WidgetProtocol()
 
 
@@ -155,6 +163,19 @@ def _cursor_shift(old_cur, new_cur, dx, dy):
         both(mk_bool(old_cur.isnone), mk_bool(new_cur.isnone)),
         both(neg(mk_bool(old_cur.isnone)), neg(mk_bool(new_cur.isnone)), new_cur.val[0] == old_cur.val[0] + dx, new_cur.val[1] == old_cur.val[1] + dy),
     )
+
+
+def _cursor_shift_clip(old, s, dx, dy):
+    """Trimming: the cursor moves with its cell, and is forgotten when that cell is trimmed away (fix: commit
+    9d24e62 -- before it a cursor outside the canvas was kept).  Stated for a cursor that was inside `old`."""
+    oc, nc = old.cursor, s.cursor
+    was_in = either(mk_bool(oc.isnone), both(0 <= oc.val[0], oc.val[0] < old.ncols, 0 <= oc.val[1], oc.val[1] < old.nrows))
+    x, y = oc.val[0] + dx, oc.val[1] + dy
+    inside = both(0 <= x, x < s.ncols, 0 <= y, y < s.nrows)
+    moved = both(neg(mk_bool(nc.isnone)), nc.val[0] == x, nc.val[1] == y)
+    return implies(was_in, either(both(mk_bool(oc.isnone), mk_bool(nc.isnone)),
+                                  both(neg(mk_bool(oc.isnone)), inside, moved),
+                                  both(neg(mk_bool(oc.isnone)), neg(inside), mk_bool(nc.isnone))))
 
 
 def _same(old, s, *names):
@@ -207,20 +228,21 @@ class cc_trim:
         else:
             yield "rows", s.nrows == imin(cnt, old.nrows - a.top)
             yield "cnt", cnt >= 0
-        yield "cursor", _cursor_shift(old.cursor, s.cursor, 0, -a.top)
+        yield "cursor", _cursor_shift_clip(old, s, 0, -a.top)
         yield "window", s.top_off == old.top_off + a.top
 
 
 @contract("urwid/canvas.py:CompositeCanvas.trim_end", property=(), assumed=True, notes="canvas protocol (owned by C02)")
 class cc_trim_end:
     self_shape = CCANVAS
-    modifies = ("nrows",)
+    modifies = ("nrows", "cursor")
 
     def requires(s, a):
         return both(a.end > 0, a.end <= s.nrows)
 
     def ensures(old, s, a, result):
         yield "rows", s.nrows == old.nrows - a.end
+        yield "cursor", _cursor_shift_clip(old, s, 0, 0)
 
 
 @contract("urwid/canvas.py:CompositeCanvas.pad_trim_left_right", property=(), assumed=True, notes="canvas protocol: cols += left+right, cursor x += left (owned by C02)")
@@ -229,11 +251,13 @@ class cc_ptlr:
     modifies = ("ncols", "cursor", "left_off")
 
     def requires(s, a):
-        return both(s.ncols + imin(a.left, 0) + imin(a.right, 0) >= 0, either(both(a.left <= 0, a.right <= 0), neg(s.noshards)))
+        # shards_trim_sides rejects a trim to zero columns (ValueError): trimming must leave a column
+        kept = s.ncols + imin(a.left, 0) + imin(a.right, 0)
+        return both(kept >= 0, implies(either(a.left < 0, a.right < 0), kept > 0), either(both(a.left <= 0, a.right <= 0), neg(s.noshards)))
 
     def ensures(old, s, a, result):
         yield "cols", s.ncols == old.ncols + a.left + a.right
-        yield "cursor", _cursor_shift(old.cursor, s.cursor, a.left, 0)
+        yield "cursor", _cursor_shift_clip(old, s, a.left, 0)
         yield "window", s.left_off == old.left_off - a.left
 
 
@@ -247,7 +271,7 @@ class cc_pttb:
 
     def ensures(old, s, a, result):
         yield "rows", s.nrows == old.nrows + a.top + a.bottom
-        yield "cursor", _cursor_shift(old.cursor, s.cursor, 0, a.top)
+        yield "cursor", _cursor_shift_clip(old, s, 0, a.top)
         yield "window", s.top_off == old.top_off - a.top
 
 
@@ -263,13 +287,17 @@ class cc_fill_attr_apply:
     modifies = ()
 
 
-@contract("urwid/canvas.py:CanvasOverlay", property=(), assumed=True, notes="canvas protocol: result has the bottom canvas's size; top canvas must fit (owned by C02)")
+@contract("urwid/canvas.py:CanvasOverlay", property=(), assumed=True,
+          notes="canvas protocol: result has the bottom canvas's size; the top canvas must lie inside the bottom one: left, top >= 0 and "
+                "right, bottom >= 0 (CompositeCanvas.overlay raises ValueError for right/bottom < 0 and, for left < 0, silently builds rows "
+                "wider than the canvas: Overlay(Text('0123456789abcdefghij'), SolidFill('.'), 'center', 'pack', 'middle', 'pack').render((12, 3)) "
+                "before /repo 61d1190 had a 16-column row in a 12-column canvas) (owned by C02)")
 class c_overlay:
     params = dict(top_c=CANVAS, bottom_c=CANVAS, left=Int, top=Int)
     result = CCANVAS
 
     def requires(a):
-        return both(a.bottom_c.ncols - a.left - a.top_c.ncols >= 0, a.bottom_c.nrows - a.top - a.top_c.nrows >= 0)
+        return both(a.left >= 0, a.top >= 0, a.bottom_c.ncols - a.left - a.top_c.ncols >= 0, a.bottom_c.nrows - a.top - a.top_c.nrows >= 0)
 
     def ensures(a, r):
         yield "size", both(r.ncols == a.bottom_c.ncols, r.nrows == a.bottom_c.nrows)
@@ -544,3 +572,10 @@ class is_mouse_press_c:
     params = dict(ev=Opaque("Key"))
     result = Bool
     pure_spec = staticmethod(lambda a: is_press(a.ev))
+
+
+@contract("urwid/widget/widget.py:Widget.__init__", property=(), assumed=True,
+          notes="stores `self.logger = logging.getLogger(<class path>)` and nothing else; logger calls are dropped (DESIGN 2.1) and the attribute is never read by verified code")
+class widget_init:
+    self_shape = Obj(urwid.Widget, {})
+    modifies = ()
